@@ -96,17 +96,20 @@ def run(ctx, chk):
             # G2: generation must not be cached without the record; G4: adoption guarded by evenness
             chk.ob('C03.G2', 'retry:no-cached-state-change', not stores, p.where[2], 'fields assigned on a retry path: %s' % sorted(stores))
             fr = p.state.frames[0] if p.state.frames else None
-            if fr is not None and len(gloads) >= 2:
-                # which local holds the reference generation at the back-edge?
-                first, second = gloads[0], gloads[-1]
-                adopted = any(k[0][0] == 'L' and k[0][1] == fr.fid and not k[1] and v == second and k[0][2] in fr.body.debug_names
-                              and fr.body.debug_names[k[0][2]] != fr.body.debug_names.get(-1)
-                              for k, v in p.state.store.items()
-                              if any(k2[0] == k[0] for k2 in [k]) and v == second and _was_first(fr, k, first, r))
-                if adopted:
-                    par, zero, n = parity_of(second, second, p.conds)
+            gl = [e for e in evs if e.kind == 'gload']
+            if fr is not None and len(gl) >= 2:
+                # the local that holds the reference generation: destination of the first generation load
+                site = gl[0].ef['site']
+                dest = r.body.blocks[site[1]]['term']['dest']['l'] if site[0] == r.body.path else None
+                cur = p.state.store.get((('L', fr.fid, dest), ())) if dest is not None else None
+                later = [e.term for e in gl[1:]]
+                if cur is not None and cur in later:
+                    par, zero, n = parity_of(cur, cur, p.conds)
                     chk.ob('C03.G4', 'retry:adopts-only-even', par == {0}, p.where[2],
-                           're-loaded generation adopted as the new reference with parity set %s' % par)
+                           're-loaded generation adopted as the new reference with parity set %s (zero possible: %s)' % (par, zero))
+                elif cur is not None and cur != gl[0].term:
+                    chk.ob('C03.G4', 'retry:reference-generation-is-a-load', False, p.where[2],
+                           'reference generation replaced by %s' % fmt(cur)[:80])
     # G3 (CFG form): every assignment of an Ok(..) result in the body lies on an explored path, so no
     # Ok exit escapes the guard table (e.g. one placed after the retry loop, which PSI does not unroll)
     visited = set()
